@@ -161,7 +161,7 @@ def h_controller(ctx, n):
   _finish(core, g)
 
 
-def h_switch(ctx, n, big=False, real_switch=False):
+def h_switch(ctx, n, big=False, real_switch=False, shape=None):
   core = env.get_core()
   iow = ctx.pox('pox.lib.ioworker')
   sw = ctx.pox('pox.datapaths.switch')
@@ -196,6 +196,15 @@ def h_switch(ctx, n, big=False, real_switch=False):
   if big:
     # one maximal message: version 1, type in {10,13,14,16,99,200,1,2,3,4} (the last four decode at any length: error, echo request/reply, vendor - their handlers may raise or reply at full size), symbolic xid, declared length 0xffe0..0xffff, 65535 bytes buffered (body zeros)
     data = env.tobytes(ctx, [1, [10, 13, 14, 16, 99, 200, 1, 2, 3, 4][int(ctx.int('typeidx', 0, 9))], 0xff, ctx.int('lenlow', 0xe0, 255)] + list(ctx.bytes('xid', 4)) + [0] * (n - 8))
+  elif shape == 'packet_out':
+    # a PACKET_OUT header whose declared length (16..n) and actions_len are symbolic, followed by symbolic bytes: action lists that end in a
+    # stub of 1-3 bytes, actions_len beyond the message, ... (type and version fixed, so that the 20 bytes are cheap to explore)
+    sy = ctx.bytes('data', n - 4)
+    data = env.tobytes(ctx, [1, 13, 0, 16 + (sy[0] & 7)] + list(sy[1:11]) + [0, sy[11] & 15] + list(sy[12:]))
+  elif shape == 'flow_mod':
+    sy = ctx.bytes('data', 12)
+    fm = list(of.ofp_flow_mod().pack())
+    data = env.tobytes(ctx, [1, 14, 0, 72 + (sy[0] & 7)] + list(sy[1:5]) + fm[8:72] + list(sy[5:12]))
   else:
     data = ctx.bytes('data', n)
   b1 = echo_bytes(0x11111111, b'ab'); b2 = echo_bytes(0x22222222); b3 = echo_bytes(0x33333333, b'xyz')
@@ -257,6 +266,6 @@ def obligations(tier):
   return [
     Obligation('O1_controller', h_controller, [dict(n=k) for k in ns_c], witnesses=('kept-open', 'closed'), max_decisions=20000, conc_cap=300,
                desc='controller I/O loop: N unconstrained bytes on one connection; termination, containment, sibling delivery'),
-    Obligation('O2_switch', h_switch, [dict(n=k) for k in ns_s] + [dict(n=k, real_switch=True) for k in (8, 12)] + [dict(n=65535, big=True), dict(n=65535, big=True, real_switch=True)], witnesses=('kept-open', 'closed', 'later-segment-on-closed', 'later-segment-on-served'), max_decisions=20000,
+    Obligation('O2_switch', h_switch, [dict(n=k) for k in ns_s] + [dict(n=k, real_switch=True) for k in (8, 12)] + [dict(n=20, shape='packet_out'), dict(n=79, shape='flow_mod')] + [dict(n=65535, big=True), dict(n=65535, big=True, real_switch=True)], witnesses=('kept-open', 'closed', 'later-segment-on-closed', 'later-segment-on-served'), max_decisions=20000,
                desc='switch I/O loop + OFConnection.read: N unconstrained bytes; termination, containment, sibling delivery, no stuck frame'),
   ]
